@@ -74,3 +74,10 @@ func VerifConfiguredLB(c *config.Config, features int) *LoadBalancer {
 	verifNoInterim = keep
 	return lb
 }
+
+// VerifBackendSlow: the scripted backend takes longer than the configured handler
+// timeout to answer (natively it really waits; under the executor only the
+// TimeoutHandler model looks at it, no time passes otherwise).
+func VerifBackendSlow(on bool) { verifSlowBackend = on }
+
+var verifSlowBackend bool
